@@ -5,6 +5,14 @@ datagram_received run on the virtual loop against a fake transport.  The
 explorer enumerates, within a deviation bound, when requests are submitted,
 which request is cancelled when, frame delivery order / loss / duplication,
 per-datagram working counters 0/1 and colliding frame indices.
+
+A request is either raw data of a given size, or "shaped": format arguments
+with values, optionally a trailing read-only format, optionally trailing data
+given as bytes or as a count of zeros - in particular EMPTY trailing data
+(data=b"", data=0), alone and combined with formats.  The bytes expected on
+the wire and the value a request must complete with (the response bytes at
+its own datagram position, decoded with its own formats) come from a
+reference written from roundtrip's docstring.
 """
 import asyncio
 import itertools
@@ -18,8 +26,10 @@ from ebpfcat.ethercat import ECCmd, EtherCat, EtherCatError
 
 PROP = "C12"
 LEVEL = "model_checking"
-RULE = ("workloads (1-3 requests, payload sizes from the alphabet, how many "
-        "are submitted up front, cancellation allowed or not) x all "
+RULE = ("workloads (1-3 requests; raw payload sizes from the alphabet, or "
+        "shaped requests: formats with values / trailing read-only format / "
+        "trailing data as bytes or count, including empty; how many are "
+        "submitted up front, cancellation allowed or not) x all "
         "executions with at most B deviations from the default environment "
         "(early/late submission, cancellation, frame loss/duplication/"
         "overtaking, working counter 0, index collision); non-trivial = at "
@@ -36,6 +46,90 @@ def payload(j, n):
 
 def response(data):
     return bytes(b ^ 0xA5 for b in data)
+
+
+# ------------------------------------------------------------ shaped requests
+# a request spec is an int n (data=payload of n bytes, nothing else) or a pair
+# (head, tail): head names the format arguments, tail is None (no data=),
+# an int (data=count of zeros) or ("b", n) (data=n bytes)
+HEADS = {
+    "-": lambda j: [],
+    "H": lambda j: [("H", (0x1200 + j,))],
+    "HB": lambda j: [("HB", (0x3400 + j, 0x50 + j))],
+    "H+I": lambda j: [("H", (0x7700 + j,)), ("I", None)],   # I is read-only
+    "+I": lambda j: [("I", None)],
+}
+TAILS = [None, ("b", 0), 0, ("b", 1), 1, ("b", 5), 3]
+SHAPES = [(h, t) for h in HEADS for t in TAILS if (h, t) != ("-", None)]
+EMPTY_TAIL = [(h, t) for h, t in SHAPES if t in (("b", 0), 0)]
+PAIR_SHAPES = EMPTY_TAIL + [("HB", ("b", 5)), ("H+I", None), ("-", 3)]
+
+
+class Request:
+    """reference for one request: call arguments, the bytes it must put on
+    the wire, and the values it may complete with for given response bytes"""
+
+    def __init__(self, j, spec):
+        self.args = []
+        self.fields = []
+        if isinstance(spec, int):
+            head, tail = [], ("b", spec)
+        else:
+            head, tail = HEADS[spec[0]](j), spec[1]
+        wire = b""
+        for fmt, vals in head:
+            self.args.append(fmt)
+            self.fields.append((fmt, len(wire)))
+            if vals is None:
+                wire += bytes(struct.calcsize("<" + fmt))
+            else:
+                self.args.extend(vals)
+                wire += struct.pack("<" + fmt, *vals)
+        self.fmt_len = len(wire)
+        self.tail = tail
+        if tail is None:
+            self.data = None
+        elif isinstance(tail, int):
+            self.data = tail
+            wire += bytes(tail)
+        else:
+            self.data = payload(j, tail[1])
+            wire += self.data
+        self.wire = wire
+
+    def accept(self, resp):
+        out = ()
+        for fmt, off in self.fields:
+            out += struct.unpack_from("<" + fmt, resp, off)
+        if self.tail is None:
+            return [out]
+        if self.fields:
+            return [out + (resp[self.fmt_len:],)]
+        return [resp]
+
+
+def norm_spec(spec):
+    if isinstance(spec, int):
+        return spec
+    head, tail = spec
+    return (head, tuple(tail) if isinstance(tail, (list, tuple)) else tail)
+
+
+def canon(value):
+    """a request's result in comparable form"""
+    if isinstance(value, tuple):
+        return tuple(bytes(v) if isinstance(v, (bytes, bytearray, memoryview))
+                     else v for v in value)
+    return bytes(value)
+
+
+def same(value, ref):
+    if type(value) is not type(ref):
+        return False
+    if isinstance(ref, tuple):
+        return len(value) == len(ref) and all(
+            type(a) is type(b) and a == b for a, b in zip(value, ref))
+    return value == ref
 
 
 class Transport:
@@ -63,6 +157,7 @@ class Transport:
 def execute(ch, workload):
     """one execution -> observation dict"""
     sizes, n_initial, may_cancel = workload
+    reqs = [Request(j, s) for j, s in enumerate(sizes)]
     loop = vloop.VLoop()
     obs = dict(stall=None, frames=[], outcomes={}, errors=[], delivered=[],
                log=[])
@@ -140,8 +235,8 @@ def execute(ch, workload):
             def submit():
                 j = pending.pop(0)
                 tasks[j] = asyncio.ensure_future(ec.roundtrip(
-                    ECCmd.FPRD, 1000 + j, 0x100 + j,
-                    data=payload(j, sizes[j])))
+                    ECCmd.FPRD, 1000 + j, 0x100 + j, *reqs[j].args,
+                    data=reqs[j].data))
                 obs["log"].append(("submit", j))
             for _ in range(n_initial):
                 submit()
@@ -216,7 +311,7 @@ def execute(ch, workload):
                 elif t.exception() is not None:
                     obs["outcomes"][j] = ("error", type(t.exception()).__name__)
                 else:
-                    obs["outcomes"][j] = ("result", bytes(t.result()))
+                    obs["outcomes"][j] = ("result", canon(t.result()))
             obs["cancelled"] = sorted(cancelled)
             if sendtask.done() and not sendtask.cancelled():
                 obs["errors"].append("sendloop ended: %r"
@@ -248,7 +343,8 @@ def judge(workload, ch, obs, res):
         res.violation(case, expected, observed, kf=kf,
                       sig=core.digest([what, str(kf)]), note=what)
 
-    oversize = [j for j, n in enumerate(sizes) if n > 1472]
+    reqs = [Request(j, s) for j, s in enumerate(sizes)]
+    oversize = [j for j, r in enumerate(reqs) if len(r.wire) > 1472]
     if obs["stall"]:
         kf = KF_STALL if oversize and "within one loop" in obs["stall"] \
             and "tasks spawned" in obs["stall"] else None
@@ -270,13 +366,16 @@ def judge(workload, ch, obs, res):
             return
         for k, d in enumerate(dgs[1:]):
             wire.append((no, k, d))
-    by_payload = {payload(j, n): j for j, n in enumerate(sizes)}
     sent_order = []
     where = {}
     for no, k, d in wire:
-        j = by_payload.get(d.data)
-        if j is None or d.cmd != 4 or d.adp != 1000 + j or d.ado != 0x100 + j:
+        j = d.adp - 1000
+        if not 0 <= j < len(reqs) or d.cmd != 4 or d.ado != 0x100 + j:
             bad("only submitted datagrams", repr(d), "foreign datagram sent")
+            return
+        if d.data != reqs[j].wire:
+            bad(reqs[j].wire.hex()[:80], d.data.hex()[:80],
+                "datagram does not carry the request's bytes")
             return
         sent_order.append(j)
         where.setdefault(j, []).append((no, k))
@@ -290,13 +389,13 @@ def judge(workload, ch, obs, res):
     for no, wk in obs["delivered"]:
         first_delivery.setdefault(no, wk)
     # --- outcome of every request is a function of its own datagram only
-    for j, n in enumerate(sizes):
+    for j, req in enumerate(reqs):
         out = obs["outcomes"][j]
         if out[0] == "not submitted":
             continue
         if j in obs["cancelled"] and out[0] == "cancelled":
             continue
-        if n > 1472:
+        if len(req.wire) > 1472:
             # can never fit: must fail (any exception), not stall / pend
             if out[0] != "error":
                 bad("an error", out, "oversize request does not fail",
@@ -313,17 +412,24 @@ def judge(workload, ch, obs, res):
                     KF_STALL if oversize else None)
             continue
         no, k = where[j][0]
+        accept = None
         if no not in first_delivery:
             exp = ("pending",)
         elif first_delivery[no][k]:
-            exp = ("result", response(payload(j, n)))
+            accept = req.accept(response(req.wire))
+            exp = ("result", accept[0])
         else:
             exp = ("error", "EtherCatError")
+        if accept is None:
+            matches = out == exp
+        else:
+            matches = out[0] == "result" and any(same(out[1], a)
+                                                 for a in accept)
         if j in obs["cancelled"] and out[0] == "cancelled":
             continue
-        if j in obs["cancelled"] and out == exp:
+        if j in obs["cancelled"] and matches:
             continue    # completed before the cancellation took effect
-        if out != exp:
+        if not matches:
             kf = None
             if out == ("error", "InvalidStateError") and no in first_delivery:
                 wk = first_delivery[no]
@@ -357,6 +463,27 @@ def workloads(ctx):
         for n_initial in ((0, 3) if ctx.quick else (0, 1, 3)):
             for may_cancel in (False, True):
                 out.append(((sizes, n_initial, may_cancel), 2))
+    # shaped requests: every shape alone; a selection (every head with both
+    # forms of empty trailing data, and one of each other kind) next to a
+    # small and a large raw request in both orders; empty-tail shapes in pairs
+    for shape in SHAPES:
+        for n_initial in (0, 1):
+            for may_cancel in (False, True):
+                out.append((((shape,), n_initial, may_cancel), b))
+    for shape in PAIR_SHAPES:
+        for other in (2, 1400):
+            for sizes in ((shape, other), (other, shape)):
+                for n_initial in ((0, 2) if ctx.quick else (0, 1, 2)):
+                    for may_cancel in (False, True):
+                        out.append(((sizes, n_initial, may_cancel), b))
+    for sizes in itertools.product(EMPTY_TAIL, repeat=2):
+        for may_cancel in (False, True):
+            out.append(((sizes, 2, may_cancel), 2))
+    if not ctx.quick:
+        for shape in SHAPES:
+            for sizes in ((shape, 2, 1400), (1472, shape, 2),
+                          (2, 700, shape)):
+                out.append(((sizes, 3, False), 2))
     # count limit: 17 tiny requests at once
     out.append((((2,) * 17, 17, False), 2))
     out.append((((2,) * 17, 17, True), 1))
@@ -410,6 +537,11 @@ def run(ctx):
     res.cov["traces_validated_against_impl"] = res.cov.get("evaluations", 0)
     res.cov["bound_completed"] = bound
     res.cov["workloads"] = len(items)
+    res.cov["shapes"] = len(SHAPES)
+    res.sample(dict(workload=[[["H", ["b", 0]], 1400], 2, True],
+                    meaning="roundtrip(cmd, pos, off, 'H', v, data=b'') and a "
+                            "1400-byte raw request submitted up front, "
+                            "cancellation allowed"))
     res.sample(dict(workload=[[2, 1400], 2, True],
                     meaning="two requests (2 and 1400 bytes) submitted up "
                             "front, cancellation allowed; then every schedule "
@@ -420,7 +552,11 @@ def run(ctx):
         "loop iterations",
         "a request cancelled by the caller may or may not still be sent; if "
         "it completed before the cancellation took effect that is accepted",
-        "an oversize request may fail with any exception"]
+        "an oversize request may fail with any exception",
+        "a shaped request (formats / read-only format / trailing data) must "
+        "carry the reference encoding on the wire and complete with the "
+        "response bytes at its own position decoded with its own formats; "
+        "raw data alone completes with the bytes themselves"]
     return res
 
 
@@ -428,13 +564,14 @@ def replay(ctx, rep):
     res = core.Result()
     c = rep["case"]
     w = c["workload"]
-    workload = (tuple(w[0]), w[1], w[2])
+    workload = (tuple(norm_spec(x) for x in w[0]), w[1], w[2])
     ch = explore.Chooser(tuple(c["choices"]))
     obs = execute(ch, workload)
     for l in obs["log"]:
         print("  ", l)
     print("outcomes:", {k: (v[0], v[1][:8].hex() if isinstance(v[-1], bytes)
-                            else v[1:]) for k, v in obs["outcomes"].items()})
+                            else core.jsonable(v[1:]))
+                        for k, v in obs["outcomes"].items()})
     print("errors:", obs["errors"], "stall:", obs["stall"])
     judge(workload, ch, obs, res)
     return res.violations
